@@ -142,6 +142,26 @@ pub fn run(run: &mut Run) {
     for (id, f) in valid_inputs() {
         inputs.push((id, f, true));
     }
+    // program families: every third program of the short statement families and recursion templates
+    for (k, (fam, p)) in crate::stmtfam::all_programs_len(1).into_iter().enumerate() {
+        if k % 3 == 0 {
+            inputs.push((format!("family:{}#{}", fam, k), one_file(&crate::ast::print_program(&p).text), true));
+        }
+    }
+    // two independent planted faults in two functions of one file
+    let snips: Vec<&crate::engines::faults::Snip> = crate::engines::faults::C03_SNIPS.iter().filter(|s| matches!(s.kind, crate::engines::faults::Kind::S)).collect();
+    for (a, sa) in snips.iter().enumerate() {
+        for (b, sb) in snips.iter().enumerate() {
+            if a < b && (a + b) % 5 == 0 {
+                let text = format!(
+                    "print: fn *X -> void : external\nm := 0\nP :: blob {{ x: int }}\nE :: enum\n    A int,\n    B,\nend\nfa :: fn do\n    {}\nend\nfb :: fn do\n    {}\nend\nstart :: fn do\n    print(1)\nend\n",
+                    sa.fault.replace('\n', "\n    "),
+                    sb.fault.replace('\n', "\n    ")
+                );
+                inputs.push((format!("two-faults:{}+{}", sa.id, sb.id), one_file(&text), false));
+            }
+        }
+    }
     let filler = one_file("print: fn *X -> void : external\nQ :: blob { a: int, b: int, c: int }\nstart :: fn do\n    print(Q { a: 1, b: 2, c: 3 }.a)\nend\n");
     // in-memory inputs: seeds x history positions
     let accs = crate::pool::par_items(&inputs, 1, |_| Stats::new(), |acc, _, (id, files, _valid)| {
